@@ -279,6 +279,64 @@ func Known(prop, text string) {
 	fmt.Printf("KNOWN-FINDING: property=%s %s\n", prop, text)
 }
 
+var (
+	knownOnce sync.Once
+	knownList map[string]string // id -> text of the entries with status "known"
+	knownSaid = map[string]bool{}
+)
+
+// KnownListed reports whether the committed known-findings file lists the finding id with status
+// "known" (a genuine defect that is recorded, not repaired). The file is only read, never written.
+func KnownListed(id string) (string, bool) {
+	knownOnce.Do(func() {
+		knownList = map[string]string{}
+		path := os.Getenv("VERIF_KNOWN")
+		if path == "" {
+			root := os.Getenv("VERIF_ROOT")
+			if root == "" {
+				root = "/verif"
+			}
+			path = root + "/known_findings.json"
+		}
+		b, err := os.ReadFile(path)
+		if err != nil {
+			return
+		}
+		var f struct {
+			Findings []struct {
+				Status, ID, Text string
+			} `json:"findings"`
+		}
+		if json.Unmarshal(b, &f) != nil {
+			return
+		}
+		for _, e := range f.Findings {
+			if e.Status == "known" {
+				knownList[e.ID] = e.Text
+			}
+		}
+	})
+	t, ok := knownList[id]
+	return t, ok
+}
+
+// ReportKnown prints the KNOWN-FINDING line of a listed finding once per process. It returns false
+// when the finding is not listed: the caller then treats the failing case as an ordinary violation.
+func ReportKnown(prop, id string) bool {
+	text, ok := KnownListed(id)
+	if !ok {
+		return false
+	}
+	failMu.Lock()
+	said := knownSaid[id]
+	knownSaid[id] = true
+	failMu.Unlock()
+	if !said {
+		Known(prop, id+" "+text)
+	}
+	return true
+}
+
 func truncate(s string, n int) string {
 	if len(s) > n {
 		return s[:n] + "..."
